@@ -3,6 +3,23 @@ From Coq.Strings Require Import Byte.
 From EsVerif.Common Require Import Base Bytes.
 From EsVerif.C04 Require Import TextModel.
 From EsVerif.C02 Require Import Arange Gen Model Spec.
+From Coq Require Import PrimInt63.
+From Coq Require Uint63.
+
+(* compact byte-string literals for large case files: [ub n l] = the n bytes held, most significant first,
+   in the primitive 63-bit integers of l (seven bytes each, the last one the rest) *)
+Definition ibit (i : Uint63.int) (n : Uint63.int) : bool :=
+  negb (PrimInt63.eqb (PrimInt63.land (PrimInt63.lsr i n) 1%uint63) 0%uint63).
+Definition byte_of_int (i : Uint63.int) : byte :=
+  Byte.of_bits (ibit i 0%uint63, (ibit i 1%uint63, (ibit i 2%uint63, (ibit i 3%uint63,
+               (ibit i 4%uint63, (ibit i 5%uint63, (ibit i 6%uint63, ibit i 7%uint63))))))).
+Fixpoint be_bytes (k : nat) (i : Uint63.int) (acc : list byte) : list byte :=
+  match k with O => acc | S k' => be_bytes k' (PrimInt63.lsr i 8%uint63) (byte_of_int i :: acc) end.
+Fixpoint ub (n : Z) (l : list Uint63.int) : list byte :=
+  match l with
+  | [] => []
+  | i :: r => let k := Z.min n 7 in be_bytes (Z.to_nat k) i [] ++ ub (n - k) r
+  end.
 
 (* scanf oracle for floating-point tokens of text files: (element size, token) |-> bytes stored *)
 Definition tab3 := list (nat * list byte * list byte).
